@@ -9,6 +9,11 @@ def cmd(pid, tier):
 
 # id -> (category, engine, technique, level text, level note, design ref)
 CHECKS = {
+ "C07": ("exploration", "ENUM",
+   "bounded-exhaustive enumeration of a (request limit, response limit) x message size x padding x entry point x body framing grid, handler log as oracle",
+   "8 limit pairs incl. unequal ones x sizes limit-2..limit+2, 1.5x, 2x, 10x x 3 padding styles x {TowerService HTTP, TowerService WS, http::call_with_service_builder, http::call_with_service, ws::connect} x 6 HTTP framings (Content-Length exact/absent/lying, 1/3/many frames); the message is always a valid call, so 'processed' is observable as 'handler ran once'; over the limit => no handler, -32007 / HTTP error status and the WS connection answers a later call; a second sweep holds the request limit and varies the response limit to show independence.",
+   "WebSocket messages are single unfragmented frames; in-memory duplex, not TCP (Server::start not exercised here).",
+   "DESIGN.md §6 C07"),
  "C01": ("exploration", "ENUM",
    "bounded-exhaustive enumeration of message byte strings (request products, token strings, byte-level mutations, all short byte strings) through both transports against an independent classifier",
    "Every distinct byte string of the stated generators (REQ product of 21 id forms x 12 methods x 11 params x 5 versions, member orders/duplicates/whitespace sub-product, all token strings of length <=5 (thorough 6) over 14 tokens, position-wise mutations of base requests, all 1- and (thorough: all) 2-byte strings, every single-byte replacement) is sent over HTTP (tower service) and over a fresh in-memory WebSocket connection followed by a sentinel call; all frames until close are collected, so 'at most one reply' is a count; replies, ids, results, invoked handlers and HTTP==WS are compared with a reference classifier written on a duplicate-preserving JSON tree.",
